@@ -773,6 +773,8 @@ class Evaluator:
                     raise Undecided("loop over %s is not a one-to-one map" % it.name, fr.f.loc(s))
             return [Path(p.conds, "live", None, out)]
         tuple_target = isinstance(s.target, (ast.Tuple, ast.List)) and all(isinstance(e, ast.Name) for e in s.target.elts)
+        if isinstance(it, str) and isinstance(s.target, ast.Name) and len(it) <= 64:
+            it = list(it)                  # a literal string walked character by character
         if isinstance(it, (list, tuple, dict)) and (isinstance(s.target, ast.Name) or tuple_target):
             # concrete iteration over a literal container (small, finite)
             keys = list(it.keys()) if isinstance(it, dict) else list(it)
@@ -1487,6 +1489,14 @@ class Evaluator:
         if name in m.funcs and name not in m.globals:
             return FuncV(m.funcs[name])
         if name in m.globals:
+            # a table that is edited in place after its assignment is not the literal it was assigned
+            edits = [n for n in ast.walk(m.tree) if isinstance(n, (ast.Assign, ast.AugAssign, ast.Delete)) and any(
+                isinstance(x, ast.Subscript) and isinstance(x.value, ast.Name) and x.value.id == name and not isinstance(x.ctx, ast.Load)
+                for t in (n.targets if isinstance(n, (ast.Assign, ast.Delete)) else [n.target]) for x in ast.walk(t))]
+            edits += [n for n in ast.walk(m.tree) if isinstance(n, ast.Call) and isinstance(n.func, ast.Attribute) and isinstance(n.func.value, ast.Name) and n.func.value.id == name
+                      and n.func.attr in ("update", "pop", "clear", "setdefault", "append", "extend", "insert", "remove", "sort", "reverse", "popitem")]
+            if edits:
+                return self._replay_module_table(m, name, edits, fr, node)
             try:
                 return _wrap(tab.literal(m, m.globals[name]))
             except Undecided:
@@ -1519,6 +1529,36 @@ class Evaluator:
             finally:
                 self._global_busy.discard(ck)
         raise Undecided("module-level name %s has no literal value" % name, fr.f.loc(node))
+
+    def _replay_module_table(self, m, name, edits, fr, node):
+        """a module-level table completed by module-level statements (`T = {}` ... `for c in 'PEDKR': T[ord(c)] = 'E'`): those statements are
+        executed, in order, over constants.  An edit inside a function means the table changes while the program runs: not a constant."""
+        ck = (m.rel, name)
+        if ck in self._global_cache:
+            return self._global_cache[ck]
+        top = list(m.tree.body)
+        inside = [e for e in edits if not any(e is x for st in top if not isinstance(st, (ast.FunctionDef, ast.ClassDef)) for x in ast.walk(st))]
+        if inside:
+            raise Undecided("module-level table %s is edited inside a function: it is state, not a constant" % name, fr.f.loc(node))
+        if ck in self._global_busy:
+            raise Undecided("module-level name %s is defined in terms of itself" % name, fr.f.loc(node))
+        self._global_busy.add(ck)
+        try:
+            stmts = [st for st in top if not isinstance(st, (ast.FunctionDef, ast.ClassDef, ast.Import, ast.ImportFrom))
+                     and any(isinstance(x, ast.Name) and x.id == name for x in ast.walk(st))]
+            stmts = [st for st in stmts if not (isinstance(st, ast.Delete))]
+            from .model import FuncInfo
+            pseudo = ast.FunctionDef(name="<module>", args=ast.arguments(posonlyargs=[], args=[], kwonlyargs=[], kw_defaults=[], defaults=[]), body=[], decorator_list=[],
+                                     lineno=getattr(m.globals[name], "lineno", 1), col_offset=0)
+            mfr = _Frame(FuncInfo(m, None, pseudo), fr.depth + 1)
+            paths = self.exec_block(stmts, [Path([], "live", None, {})], mfr)
+            live = [p_ for p_ in paths if p_.kind == "live"]
+            if len(paths) != 1 or len(live) != 1 or live[0].conds or not _is_concrete(live[0].env.get(name)):
+                raise Undecided("module-level table %s does not fold to a constant" % name, fr.f.loc(node))
+            self._global_cache[ck] = live[0].env[name]
+            return live[0].env[name]
+        finally:
+            self._global_busy.discard(ck)
 
     def eval_attr(self, node, env, fr):
         # module attribute (aminoacids.ONE_TO_THREE)
@@ -1828,6 +1868,13 @@ class Evaluator:
             if isinstance(v, (list, tuple)) and all(isinstance(x, (tuple, list)) and len(x) == 2 and _pykey(x[0]) is not None for x in v):
                 return {_pykey(x[0]): x[1] for x in v}
             raise Undecided("dict(%s)" % unparse(args[0])[:40], fr.f.loc(node))
+        if name in ("ord", "chr") and len(args) == 1 and not node.keywords:
+            v = self.eval(args[0], env, fr)
+            if name == "ord" and isinstance(v, str) and len(v) == 1:
+                return Rat.const(ord(v))
+            if name == "chr" and isinstance(v, Rat) and v.is_const():
+                return chr(int(v.const_value()))
+            raise Undecided("%s() of a symbolic value" % name, fr.f.loc(node))
         if name == "getattr" and len(args) == 2 and not node.keywords:
             obj = self.eval(args[0], env, fr)
             attr = self.eval(args[1], env, fr)
@@ -1865,6 +1912,12 @@ class Evaluator:
         if isinstance(fn, ast.Attribute) and fn.attr == "translate" and len(args) == 1 and not node.keywords:
             base = self.eval(fn.value, env, fr)
             t = self.eval(args[0], env, fr)
+            if isinstance(t, dict) and not isinstance(t, TransTable) and t and all(isinstance(k, int) and (isinstance(v_, str) or v_ is None) for k, v_ in t.items()):
+                # a translation table written by hand: code point -> replacement text (None deletes)
+                tt_ = TransTable()
+                for k, v_ in t.items():
+                    tt_[chr(k)] = "" if v_ is None else v_
+                t = tt_
             if isinstance(t, TransTable):
                 if isinstance(base, SeqV) and base.kind == "seq":
                     return StrMapV({L: t.get(L, L) for L in self.universe})
@@ -2125,6 +2178,13 @@ class Evaluator:
                     return Rat.const(round(v.const_value()))
                 return fatom("round", v)
         if name in ("float", "int") and len(args) == 1:
+            if isinstance(args[0], str):
+                # a concrete text: converted as python does (surrounding blanks allowed, anything else is a ValueError)
+                txt = args[0].strip()
+                try:
+                    return Rat.const(int(txt)) if name == "int" else Rat.const(Fraction(txt) if "e" not in txt.lower() and "n" not in txt.lower() else Fraction(float(txt)))
+                except (ValueError, ZeroDivisionError, OverflowError):
+                    raise _Raised("ValueError")
             v = _as_rat(args[0])
             if v is None:
                 raise Undecided("%s() of non-number" % name, fr.f.loc(node))
